@@ -52,7 +52,7 @@ func atomsAt(f *FuncInfo, root ast.Node, pos token.Pos) (map[string]guardAtom, b
 	}
 	for k, as := range best.OrAtoms {
 		for i, a := range as {
-			all[k+"#"+itoa(i)] = a
+			all["|or|"+k+"|"+itoa(i)] = a
 		}
 	}
 	return all, true
@@ -3030,4 +3030,184 @@ func init() {
 		Old:    "\t\t\tif keyBatch.err != nil {\n\t\t\t\tbatchChan <- bundlesEvent{err: keyBatch.err}\n",
 		New:    "\t\t\tif len(keyBatch.keys) == 0 {\n\t\t\t\tcontinue\n\t\t\t}\n\t\t\tif keyBatch.err != nil {\n\t\t\t\tbatchChan <- bundlesEvent{err: keyBatch.err}\n",
 		Expect: "fetchers-test-error-first"})
+}
+
+// checkNoPrefixDeletes (C18, pooled): names live in the lookup tree under parent-inode + name; a name is removed by
+// deleting exactly its key. Nothing in pkg/fuse calls DeletePrefix on a radix tree: the prefix of "out" also covers the
+// siblings "out.log" and "output".
+func checkNoPrefixDeletes(c *Ctx, rule string) {
+	p := c.P
+	for _, f := range p.FuncsIn("pkg/fuse") {
+		if f.Decl.Body == nil {
+			continue
+		}
+		info := f.Info()
+		k := 0
+		ast.Inspect(f.Decl.Body, func(nd ast.Node) bool {
+			if call, ok := nd.(*ast.CallExpr); ok && strings.HasSuffix(calleeID(info, call), ".DeletePrefix") && strings.Contains(calleeID(info, call), "go-immutable-radix") {
+				k++
+				c.fail(rule, f.ID+":delete-prefix#"+itoa(k), p.Pos(call.Pos()),
+					f.ID+" removes every key under a prefix of a radix tree: keys are parent inode + name, so the entries of siblings whose names merely start with the removed name are removed too (they stay listed, but lookups, unlink and rename on them answer ENOENT)")
+			}
+			return true
+		})
+	}
+	if f := p.FuncOpt("pkg/fuse.fsMutable.deleteNSEntry"); f != nil {
+		c.ok(rule, f.ID, p.Pos(f.Decl.Pos()), "names are removed by exact key")
+	}
+}
+
+// checkMountKeepsBundleID (C06, C18; pooled): the mutable mount commits into the bundle object it was given; pkg/fuse
+// never assigns that bundle's ID. (A retry under a fresh ID after a failed attempt keeps the index-file counter the
+// failed attempt advanced: the new bundle's descriptor then counts index files that were never written under its ID.)
+func checkMountKeepsBundleID(c *Ctx, rule string) {
+	p := c.P
+	for _, f := range p.FuncsIn("pkg/fuse") {
+		if f.Decl.Body == nil {
+			continue
+		}
+		info := f.Info()
+		k := 0
+		ast.Inspect(f.Decl.Body, func(nd ast.Node) bool {
+			as, ok := nd.(*ast.AssignStmt)
+			if !ok {
+				return true
+			}
+			for _, l := range as.Lhs {
+				sel, ok := ast.Unparen(l).(*ast.SelectorExpr)
+				if !ok || sel.Sel.Name != "BundleID" {
+					continue
+				}
+				if t := info.TypeOf(sel.X); t != nil && namedTypeID(derefType(t)) == "pkg/core.Bundle" {
+					k++
+					c.fail(rule, f.ID+":bundle-id#"+itoa(k), p.Pos(as.Pos()),
+						f.ID+" assigns the ID of the bundle it commits into: the next attempt publishes under another ID a descriptor whose index-file count still includes the files of the failed attempt — a visible bundle that cannot be downloaded")
+				}
+			}
+			return true
+		})
+	}
+	if f := p.FuncOpt("pkg/fuse.fsMutable.commitImpl"); f != nil {
+		c.ok(rule, f.ID, p.Pos(f.Decl.Pos()), "the mount does not assign the bundle's ID")
+	}
+}
+
+// checkReaderBuiltPerCall (C01, pooled): defaultFs.reader hands out a reader built in this call: each success return
+// follows newReader (a sequential reader carries its position; one remembered per key serves the second Get of that key
+// from where the first stopped).
+func checkReaderBuiltPerCall(c *Ctx, rule string) {
+	p := c.P
+	f := p.Func("pkg/cafs.defaultFs.reader")
+	b := p.BodyOf(f)
+	isNew := func(bb *Body, call *ast.CallExpr) bool { return calleeID(bb.Info(), call) == "pkg/cafs.newReader" }
+	bad, nS := b.mustPassBeforeSuccess(isNew)
+	c.check(len(bad) == 0 && nS > 0, rule, f.ID, p.Pos(f.Decl.Pos()), "every successful return follows newReader",
+		"defaultFs.reader can return a reader it did not build in this call: readers carry the position of a sequential read, so a remembered one serves a later Get of the same object from where an earlier one stopped (0 bytes and EOF)")
+}
+
+// checkWALEntriesOnlyWithoutError (C19, pooled): the collector of a WAL listing hands the entries over only when no
+// reader reported an error: the send of the entry list is reached only where the collected error is known to be nil. A
+// listing that skips the entries it could not read returns a window with a silent hole.
+func checkWALEntriesOnlyWithoutError(c *Ctx, rule string) {
+	p := c.P
+	f := p.Func("pkg/wal.WAL.collectParallelResponses")
+	info := f.Info()
+	n := 0
+	ast.Inspect(f.Decl.Body, func(nd ast.Node) bool {
+		s, ok := nd.(*ast.SendStmt)
+		if !ok {
+			return true
+		}
+		ct, ok := info.TypeOf(s.Chan).Underlying().(*types.Chan)
+		if !ok {
+			return true
+		}
+		sl, ok := ct.Elem().Underlying().(*types.Slice)
+		if !ok || !strings.HasSuffix(namedTypeID(sl.Elem()), "model.Entry") {
+			return true
+		}
+		n++
+		root := ast.Node(f.Decl.Body)
+		if l := innermostLitAt(f, s.Pos()); l != nil {
+			root = l.Body
+		}
+		atoms, _ := atomsAt(f, root, s.Pos())
+		okNil := false
+		for lit, at := range atoms {
+			if strings.HasPrefix(lit, "|or|") {
+				continue // a member of a disjunction establishes nothing
+			}
+			be, ok := ast.Unparen(at.Expr).(*ast.BinaryExpr)
+			if !ok || !(isNil(info, be.X) || isNil(info, be.Y)) {
+				continue
+			}
+			other := be.X
+			if isNil(info, be.X) {
+				other = be.Y
+			}
+			if t := info.TypeOf(other); t == nil || !isErrorType(t) {
+				continue
+			}
+			if (be.Op == token.EQL && !at.Neg) || (be.Op == token.NEQ && at.Neg) {
+				okNil = true
+			}
+		}
+		c.check(okNil, rule, f.ID+":entries#"+itoa(n), p.Pos(s.Pos()), "the entry list is sent only where the collected error is nil",
+			"the collector sends the entry list on a path where a reader's error may have been collected: the listing succeeds without the entries that could not be read, a silent hole in the window")
+		return true
+	})
+	if n == 0 {
+		c.shape3(rule, f.ID, "the collector no longer sends a []model.Entry")
+	}
+}
+
+// checkPurgeOptionSettersOwnField (C14, pooled): each purge option sets its own field of the options, nothing else:
+// the functor returned by a With… function assigns exactly one field. (A dry-run that also switches force on makes an
+// unforced job overwrite, then remove, the lock another job holds.)
+func checkPurgeOptionSettersOwnField(c *Ctx, rule string) {
+	p := c.P
+	n := 0
+	for _, f := range p.FuncsIn("pkg/core") {
+		if f.Decl.Body == nil {
+			continue
+		}
+		sig, ok := f.Obj.Type().(*types.Signature)
+		if !ok || sig.Results().Len() != 1 || namedTypeID(sig.Results().At(0).Type()) != "pkg/core.PurgeOption" {
+			continue
+		}
+		info := f.Info()
+		fields := map[string]bool{}
+		ast.Inspect(f.Decl.Body, func(nd ast.Node) bool {
+			as, ok := nd.(*ast.AssignStmt)
+			if !ok {
+				return true
+			}
+			for _, l := range as.Lhs {
+				sel, ok := ast.Unparen(l).(*ast.SelectorExpr)
+				if !ok {
+					continue
+				}
+				if t := info.TypeOf(sel.X); t != nil && namedTypeID(derefType(t)) == "pkg/core.purgeOptions" {
+					fields[sel.Sel.Name] = true
+				}
+			}
+			return true
+		})
+		if len(fields) == 0 {
+			continue
+		}
+		n++
+		var names []string
+		for k := range fields {
+			names = append(names, k)
+		}
+		sort.Strings(names)
+		// keyed on defaultPurgeOptions, which applies the setters a caller passes (the setters themselves are called
+		// from outside the repository's operations)
+		c.check(len(names) == 1, rule, "pkg/core.defaultPurgeOptions:setter:"+strings.TrimPrefix(f.ID, "pkg/core."), p.Pos(f.Decl.Pos()), "sets "+names[0],
+			f.ID+" sets "+strings.Join(names, " and ")+": an option that also changes another setting gives the call a behaviour its caller did not ask for (a dry-run that forces the lock overwrites, then removes, the lock of a running job)")
+	}
+	if n < 3 && c.sharedReach == nil {
+		c.shape3(rule, "pkg/core.defaultPurgeOptions", "fewer than 3 purge option setters found")
+	}
 }
